@@ -56,6 +56,10 @@ func c19Ident(r *wk.Rand, used map[string]bool) string {
 
 func c19Gen(r *wk.Rand) []c19Obj {
 	nobj := r.Intn(7)
+	large := r.Chance(8) // now and then a schema whose generated source runs to tens of kilobytes
+	if large {
+		nobj = 8 + r.Intn(30)
+	}
 	usedObj := map[string]bool{}
 	objs := make([]c19Obj, nobj)
 	for i := range objs {
@@ -75,6 +79,9 @@ func c19Gen(r *wk.Rand) []c19Obj {
 	allowMap := r.Chance(12)
 	for i := range objs {
 		np := r.Intn(7)
+		if large {
+			np = 5 + r.Intn(40)
+		}
 		used := map[string]bool{}
 		for j := 0; j < np; j++ {
 			p := c19Prop{name: c19Ident(r, used)}
